@@ -1,5 +1,8 @@
 import Tx3Proofs.C05
+import Tx3Proofs.C05Fee
 #print axioms Tx3.resolveLoop_fixed_point
 #print axioms Tx3.C05_fixed_point
 #print axioms Tx3.resolveLoop_stable
 #print axioms Tx3.C05_stable
+#print axioms Tx3.C05_fee_written
+#print axioms Tx3.C05_fee_chain
